@@ -424,6 +424,8 @@ pub enum MOp {
     UnregSig(i32),
     /// register a forbidden signal (panics), caught by the harness
     RegForbidden,
+    /// registration through the unchecked entry point (the only way to hook SIGFPE / SIGILL / SIGSEGV)
+    RegUnchecked(i32, u64),
     /// an unchecked registration the OS refuses (SIGKILL: its disposition can be read, not changed)
     RegRefused,
 }
@@ -477,6 +479,13 @@ fn run_mops(s: &RS, ops: &[MOp], pause: bool) {
                 sched::log("regforbidden_call", 0, 0);
                 let r = std::panic::catch_unwind(|| unsafe { reg::register(libc::SIGKILL, || ()) });
                 sched::log("regforbidden_ret", r.is_err() as u64, 0);
+            }
+            MOp::RegUnchecked(sig, tag) => {
+                sched::log("reg_call", *tag, *sig as u64);
+                let act = make_action(*tag, pause);
+                let id = unsafe { reg::register_unchecked(*sig, move |_| act()) }.expect("register_unchecked");
+                s.ids.lock().unwrap().insert(*tag, id);
+                sched::log("reg_ret", *tag, *sig as u64);
             }
             MOp::RegRefused => {
                 sched::log("regrefused_call", 0, 0);
@@ -1217,6 +1226,15 @@ pub fn scenarios(prop: &str, tier: Tier) -> Vec<Item> {
             v.push(item(build_h1(H1P { name: "h1_1w1_2r1", writers: vec![1], readers: vec![1, 1], nest_writer: false, stale: true }), if q { Some(3) } else { Some(5) }, "half-lock: 1 store vs 2 readers"));
             v.push(item(build_h1(H1P { name: "h1_1w2_2r2_nested", writers: vec![2], readers: vec![2, 2], nest_writer: true, stale: true }), b(2, 3), "2 stores vs 2x2 reads + a read nested in the writer at every boundary"));
             v.push(item(build_h1(H1P { name: "h1_2w_2r", writers: vec![1, 1], readers: vec![1, 2], nest_writer: true, stale: true }), b(2, 3), "2 writers vs 2 readers + nested read"));
+            // a signal of the forbidden list, hooked through the unchecked entry point and sent by software
+            let mut p = rp("reg_unregister_vs_deliveries_sigfpe_unchecked", "C01");
+            p.disps = vec![(libc::SIGFPE, Disp::Ignore), (S2, Disp::Ignore)];
+            p.pre = vec![RegUnchecked(libc::SIGFPE, 1)];
+            p.mutators = vec![vec![RegUnchecked(libc::SIGFPE, 2), Unreg(1)]];
+            p.deliverers = vec![vec![libc::SIGFPE], vec![libc::SIGFPE]];
+            p.nest = vec![libc::SIGFPE];
+            p.pause_in_action = true;
+            v.push(item(build_reg(p), b(2, 3), "the same on SIGFPE registered through register_unchecked and raised by software: removal is quiescent for every signal the registry can hold"));
             v.push(item(build_h1_endurance("h1_reader_off_cpu_endurance", 1_600_000), Some(0), "a reader stays inside its section while the writer goes through 1.6 million barrier rounds (a thread off the processor for a long time): the store must neither return nor release the old value before the reader leaves, and must do both afterwards; one forced schedule"));
             // registry
             let mut p = rp("reg_unregister_vs_deliveries", "C01");
@@ -1263,6 +1281,11 @@ pub fn scenarios(prop: &str, tier: Tier) -> Vec<Item> {
                 p.nest = vec![S1, S2];
                 v.push(item(build_reg(p), Some(2), "two mutators on two signals, deliveries of both from two threads"));
             }
+            let mut p = rp("snapshot_stale_unregister", "C02");
+            p.pre = vec![Reg(S1, 1)];
+            p.mutators = vec![vec![Reg(S1, 2), Unreg(2), Reg(S1, 3), Unreg(2), Reg(S1, 4), Unreg(2)]];
+            p.deliverers = vec![vec![S1, S1]];
+            v.push(item(build_reg(p), b(2, 3), "an id is used again after its action was removed (a no-op), with later registrations in between: the later actions keep running"));
             let mut p = rp("snapshot_after_oneshot_handler_urg", "C02");
             p.disps = vec![(libc::SIGURG, Disp::PlainOdd), (S2, Disp::Ignore)];
             p.pre = vec![Reg(libc::SIGURG, 1)];
